@@ -51,11 +51,12 @@ func TestC18(t *testing.T) { pbt.Check(t, "C18", genC18, runC18) }
 // ---- generator ----------------------------------------------------------------------------------------
 
 type opw struct {
-	rt      *rapid.T
-	c       *c18Case
-	ops     []op
-	focused bool // inside a constructed transition: prefer execution times that leave room for the protocol
-	starve  bool // this segment registers nonce pairs only for the genesis current group's members
+	rt       *rapid.T
+	c        *c18Case
+	ops      []op
+	focused  bool // inside a constructed transition: prefer execution times that leave room for the protocol
+	starve   bool // this segment registers nonce pairs only for the genesis current group's members
+	segStart int  // index of the first op of the current segment
 }
 
 // nonce pairs for everybody, or only for the members of the genesis current group (then members that exist
@@ -68,7 +69,16 @@ func (g *opw) desall(n int) op {
 	return o
 }
 
-func (g *opw) emit(o ...op) { g.ops = append(g.ops, o...) }
+func (g *opw) emit(o ...op) {
+	for i := range o {
+		// an offset at the upper end of the window plus a sub-second part is outside the window: keep only the
+		// boundary case "1 ms beyond the maximum"
+		if (o[i].K == "propT" || o[i].K == "propF") && o[i].B >= g.c.Max && o[i].Ms > 1 {
+			o[i].Ms = 0
+		}
+	}
+	g.ops = append(g.ops, o...)
+}
 
 func (g *opw) memberMask() uint32 {
 	rt := g.rt
@@ -147,7 +157,7 @@ func (g *opw) end(onExec bool) {
 		g.endx(gen.OneOf(g.rt, "xn", -1, 0, 0, 0, 1))
 		return
 	}
-	g.emit(op{K: "end", A: gen.OneOf(g.rt, "dt", 1, 1, 1, 1, 2), Ms: gen.OneOf(g.rt, "dtms", 0, 0, 0, 0, 0, 1, 500, 900)})
+	g.emit(op{K: "end", A: gen.OneOf(g.rt, "dt", 1, 1, 1, 1, 2), Ms: gen.OneOf(g.rt, "dtms", 0, 0, 0, 0, 0, 0, 0, 0, 0, 0, 0, 0, 0, 0, 0, 0, 0, 1, 500, 900)})
 }
 
 // endx lands a block on ExecTime + a seconds; when a == 0 the landing is placed within the same second: just before
@@ -162,10 +172,32 @@ func (g *opw) endx(a int) {
 	case 0:
 		g.emit(op{K: "endx"})
 	case 1:
-		g.emit(op{K: "endx", Ms: gen.OneOf(rt, "xbefore", -900, -100, -100, -1, -1)}, op{K: "endx", Ms: gen.OneOf(rt, "xthen", 0, 0, 1, 100)})
+		before := op{K: "endx", Ms: gen.OneOf(rt, "xbefore", -900, -100, -100, -1, -1)}
+		then := op{K: "endx", Ms: gen.OneOf(rt, "xthen", 0, 0, 1, 100)}
+		// the landing just before ExecTime takes the place of the preceding ordinary block end of this segment (same
+		// number of blocks, only that block's time moves); without one it is an extra block
+		if i := g.lastPlainEnd(); i >= 0 && gen.Chance(rt, "xreplace", 4, 5) {
+			g.ops[i] = before
+			g.emit(then)
+		} else {
+			g.emit(before, then)
+		}
 	default:
 		g.emit(op{K: "endx", Ms: gen.OneOf(rt, "xafter", 1, 100)})
 	}
+}
+
+// lastPlainEnd: index of the last block-ending op if it is an ordinary step emitted by the current segment, else -1
+func (g *opw) lastPlainEnd() int {
+	for i := len(g.ops) - 1; i >= g.segStart; i-- {
+		if isEnd(g.ops[i].K) {
+			if g.ops[i].K == "end" {
+				return i
+			}
+			return -1
+		}
+	}
+	return -1
 }
 
 // endv lands a block on the end of the voting period (+ a seconds), sometimes preceded by a block just before it.
@@ -233,7 +265,9 @@ func (g *opw) transitionSegment() {
 		case 4: // an idle block first
 			g.emit(op{K: "end", A: 1}, op{K: "dkg", Mask: 0xff})
 		}
-		g.end(target == r)
+		// (target 5: the proposal itself is the milestone; the block after it lands on the execution time, which may
+		// have a sub-second part)
+		g.end(target == r || (target == 5 && r == 1))
 	}
 	if gen.Chance(rt, "postdes", 2, 3) { // nonce pairs for the new members, so that the incoming group can sign
 		g.emit(g.desall(gen.Range(rt, "nde", 0, 2)))
@@ -552,6 +586,7 @@ func genC18(rt *rapid.T) c18Case {
 	nseg := rapid.IntRange(1, 3).Draw(rt, "nseg")
 	for i := 0; i < nseg; i++ {
 		g.starve = gen.Chance(rt, "starve", 1, 4)
+		g.segStart = len(g.ops)
 		switch gen.Pick(rt, "seg", 6, 3, 1, 1, 4, 4) {
 		case 5:
 			g.dupMemberSegment()
